@@ -275,7 +275,7 @@ def worker_task(task: dict) -> dict:
     first = isolate.fork_call(run_cases_child, (cases, INFO, None), timeout=600)
     hseed = core.run_seed(vseed, PROP + "-history", task["indices"][0])
     after = isolate.fork_call(run_cases_child, (cases, INFO, hseed), timeout=600)
-    st = {"draws": 0, "violations": [], "violation_count": 0, "results": {}, "classes": set(), "probes": {},
+    st = {"draws": 0, "violations": [], "violation_count": 0, "results": {}, "classes": set(), "probes": {}, "violating": [],
           "outcomes": {}, "prng_calls": 0, "samples": []}
 
     def probe(name, n=1):
@@ -316,6 +316,7 @@ def worker_task(task: dict) -> dict:
             probe("draws_with_pinned_components")
         if viol is not None:
             st["violation_count"] += 1
+            st["violating"].append(case["index"])
             if len(st["violations"]) < 4:
                 st["violations"].append({"property": PROP, "engine": core.ENGINE_VERSION, "verif_seed": vseed,
                                          "run_index": case["index"], "pythonhashseed": core.HASHSEED,
@@ -499,6 +500,7 @@ def main() -> int:
     wp = isolate.Pool(core.workers())
     agg = {"draws": 0, "violation_count": 0, "prng_calls": 0}
     results: dict = {}
+    violating: set = set()
     classes: set = set()
     probes: dict = {}
     outcomes: dict = {}
@@ -512,6 +514,7 @@ def main() -> int:
             for k in agg:
                 agg[k] += st[k]
             results.update(st["results"])
+            violating.update(st["violating"])
             classes.update(st["classes"])
             for src, dst in ((st["probes"], probes), (st["outcomes"], outcomes)):
                 for k, v in src.items():
@@ -527,7 +530,7 @@ def main() -> int:
                 fresh_done += 1
                 got = fres[str(case["index"])]
                 want = results.get(case["index"])
-                if want is not None and got != want:
+                if want is not None and got != want and case["index"] not in violating:
                     agg["violation_count"] += 1
                     violations.append({"property": PROP, "engine": core.ENGINE_VERSION, "verif_seed": vseed,
                                        "run_index": case["index"], "pythonhashseed": core.HASHSEED, "draw": case,
